@@ -15,6 +15,8 @@ NOTES = {
  'c11-vstack-size-assert': 'equivalent for the property: numpy raises ValueError downstream in every misuse shape',
  'c12-argc-pi-sign': 'equivalent inside the real domain (differs only for z2.real == 0 with a negative real base)',
  'c04-hessdiag-central-even-half': 'a 1e-12 relative perturbation of f(x): below the head-room of the honesty form',
+ 'c01-dea3-keeps-e1': 'near-equivalent: when the convergence test fires e_1 and e_2 differ by at most the tolerance eps*max|e|, so returning e_1 instead of e_2 stays inside "L up to rounding"; an earlier workload caught it once through C01 (1 execution), the present one does not',
+ 'c17-extrapolate-exponent': 'the extrapolation exponent only changes how fast the rows converge; the reported estimates are differences of successive rows and grow with the error, so the property as stated still holds (an earlier workload saw 3 executions outside the bound, the present one none)',
  'c04-hessian-order-forward': 'only the Richardson order assumption changes; results stay within 300 x the reported estimate',
 }
 by = collections.OrderedDict()
